@@ -21,6 +21,7 @@ from ..workloads import markers as MW
 from ..coldprobe import describe, run_op
 
 PROP = "C10"
+ANCHORS = ['dep_logic.markers:parse_marker', 'dep_logic.markers.single:_merge_single_markers', 'dep_logic.utils:cnf', 'dep_logic.utils:dnf', 'dep_logic.markers.single:MarkerExpression.from_specifier']
 RULE = ("Histories of 40-120 operations (parse / & / |) over a small atom alphabet (8-14 atoms on 1-3 variables) so "
         "that equal keys recur, deliberately containing equal-but-differently-built markers: literal on the left vs "
         "right for comparison operators, '3.10' vs '3.10.0', grouped ==/!= atoms in both orders, results re-rendered by "
